@@ -33,7 +33,7 @@ def gates(tier):
         "min_decided": {a: 1500 * k for a in APIS},
         "shapes": {c: 3 * k for c in ["nullable_nonstart", "nullable_cycle", "unary_cycle", "recursive", "finite_language",
                                       "prefix:dead", "prefix:live", "sr:Q", "sr:Boolean", "sr:MaxTimes", "sr:Real",
-                                      "oracle-crosscheck", "derivative:tagged", "derivative:resumed-chain", "scale:big-grammar"]},
+                                      "oracle-crosscheck", "derivative:tagged", "derivative:resumed-chain", "scale:big-grammar", "long-prefix"]},
         "min_hashseeds": 2,
     }
 
@@ -131,6 +131,37 @@ def run_case(case, ctx):
             mech = f"{mechbase}/value"
         ctx.check(api, good, mech, c2, {"have": have, "want": lib.want_value(R, w)})
 
+    # long prefixes (18-45 tokens) of sampled members: their weights are tiny (1e-10 .. 1e-40) but not zero, and the
+    # library computes them to many digits (probe: 116 of 116 within 1e-6 relative) - a viable prefix must keep a
+    # non-zero weight of the right magnitude, however long it is
+    if R in ("Float", "Real", "Boolean", "MaxTimes") and not case.get("big"):
+        import random as _r
+
+        lrng = _r.Random(len(g["rules"]) * 7919 + len(prefixes))
+        if lrng.random() < 0.35:
+            for x in GG.sample_members(g, lrng, k=2, min_len=18, max_len=45, tries=150):
+                for n in {len(x), (2 * len(x)) // 3}:
+                    p = tuple(x[:n])
+                    try:
+                        w = O.prefix_weight(p)
+                    except (cfgref.NotApplicable, cfgref.Singular, cfgref.NoConverge):
+                        continue
+                    if O.isz(w) or (R in ("Float", "Real") and float(w) < 1e-250):
+                        continue
+                    ctx.shape["long-prefix"] += 1
+                    c2 = dict(case, p=list(p), long_prefix=True)
+                    for api, fn, nm in ((APIS[0], cfg.prefix_weight, "prefix_weight"), (APIS[1], lambda q: cfg.prefix_grammar(q), "prefix_grammar")):
+                        ok, v = ctx.call(api, c2, fn, p)
+                        if ok:
+                            if R in ("Float", "Real"):
+                                hv = lib.have_value(R, v)
+                                try:
+                                    good = abs(float(hv) - float(w)) <= 1e-6 * float(w)
+                                except (TypeError, ValueError):
+                                    good = False
+                            else:
+                                good = same(v, w)
+                            ctx.check(api, good, f"{nm}/long-prefix/value", c2, {"have": v, "want": lib.want_value(R, w), "len": n})
     for p in prefixes:
         c2 = dict(case, p=list(p))
         ok, v = ctx.call(APIS[0], c2, cfg.prefix_weight, p)
